@@ -5,7 +5,8 @@
     C09_ga_parents_from_fitter_half   when the 1 % replacement draw does not fire, every sampled parent's `score_current`
                                       dominates the `score_current` of every individual of the worse half (nan-free scores),
                                       whatever permutation numpy's argsort returned;
-    C09_ga_parents_count              as many parents as `min(n_parents, len(fittest))`, no individual twice.
+    C09_ga_parents_count              as many parents as `min(n_parents, len(fittest))`, no individual twice;
+    C09_es_cross_overwrites_worst     EvolutionStrategy's crossover overwrites an individual that every other one dominates.
 
   A reversed sort, a swapped slice (`pop_sorted[n_fittest:]` as the parents) or an ascending argsort makes the recorded sample
   fail `parentsFrom`, i.e. the complete model stops with "parents-not-sampled-from-the-fittest".
@@ -176,5 +177,109 @@ theorem C09_ga_parents_count {cfg : GACfg} {s : PopSt} {tape rest : Tape} {offs 
       simp [List.length_take]; omega
   · simp at hpar
   · simp at hpar
+
+end GFO.GaSelect
+
+namespace GFO.GaSelect
+open GFO GFO.EvoRuns GFO.SmboRuns
+
+theorem emitVia_cur {s s' : PopSt} {idx : Nat} {q p : Pos} {tape : Tape} (h : emitVia s idx q tape = .ok (p, s')) :
+    s'.cur = idx ∧ p = q := by
+  unfold emitVia at h
+  cases hm : s.members[idx]? with
+  | none => rw [hm] at h; simp at h
+  | some m =>
+    rw [hm] at h
+    simp only [Except.ok.injEq, Prod.mk.injEq] at h
+    obtain ⟨e1, e2⟩ := h
+    subst e1 e2
+    exact ⟨rfl, rfl⟩
+
+/-- `_cross` of EvolutionStrategy: the recombined position is written to the individual at the END of the sorted population -/
+theorem esCross_cur {cfg : ESCfg} {s s' : PopSt} {perm : List Nat} {k : Nat} {tape : Tape} {p : Pos}
+    (h : esCross cfg s perm k tape = .ok (p, s')) : s'.cur = perm.getD (s.members.length - 1) 0 := by
+  unfold esCross at h
+  simp only [bind, Except.bind] at h
+  cases h1 : takeInt tape with
+  | error e => rw [h1] at h; simp at h
+  | ok a =>
+    rw [h1] at h
+    simp only at h
+    split at h
+    · simp at h
+    · cases h2 : posCurrentOf s (perm.getD k 0) with
+      | error e => rw [h2] at h; simp at h
+      | ok pc =>
+        rw [h2] at h
+        simp only at h
+        cases h3 : posCurrentOf s (perm.getD a.1 0) with
+        | error e => rw [h3] at h; simp at h
+        | ok ps =>
+          rw [h3] at h
+          simp only at h
+          cases h4 : takeChoice pc.length a.2 with
+          | error e => rw [h4] at h; simp at h
+          | ok c =>
+            rw [h4] at h
+            simp only at h
+            cases h5 : recombine c.1 [pc, ps] with
+            | error e => rw [h5] at h; simp at h
+            | ok pos =>
+              rw [h5] at h
+              simp only at h
+              cases h6 : askFeas pos c.2 with
+              | error e => rw [h6] at h; simp at h
+              | ok b =>
+                rw [h6] at h
+                simp only at h
+                split at h
+                · exact (emitVia_cur h).1
+                · cases h7 : moveClimb cfg.member.geo (some pos) (some 1) s.tape.length b.2 with
+                  | error e => rw [h7] at h; simp at h
+                  | ok q =>
+                    rw [h7] at h
+                    simp only at h
+                    exact (emitVia_cur h).1
+
+/-- C09, EvolutionStrategy: a crossover overwrites a WORST individual - every individual's `score_current` dominates the
+    `score_current` of the one that receives the recombined position (nan-free scores, any argsort output) -/
+theorem C09_es_cross_overwrites_worst {cfg : ESCfg} {s s' : PopSt} {perm : List Nat} {k : Nat} {tape : Tape} {p : Pos}
+    (hs : sortedDesc (s.members.map (·.tr.scoreCurrent)) perm = true)
+    (hn : ∀ m ∈ s.members, m.tr.scoreCurrent.isNan = false) (hne : s.members ≠ [])
+    (h : esCross cfg s perm k tape = .ok (p, s')) :
+    ∀ i, i < s.members.length →
+      F.ge ((s.members.map (·.tr.scoreCurrent)).getD i .nan) ((s.members.map (·.tr.scoreCurrent)).getD s'.cur .nan) = true := by
+  rw [esCross_cur h]
+  intro i hi
+  have hsn : ∀ y ∈ s.members.map (·.tr.scoreCurrent), y.isNan = false := by
+    intro y hy
+    obtain ⟨m, hm, rfl⟩ := List.mem_map.mp hy
+    exact hn m hm
+  have hsplit := sortedDesc_split _ perm (s.members.length - 1) hs hsn
+  have hs' := hs
+  unfold sortedDesc at hs'
+  simp only [Bool.and_eq_true, beq_iff_eq, List.all_eq_true, List.mem_range, List.contains_iff_mem, List.length_map] at hs'
+  obtain ⟨⟨hlen, hall⟩, _⟩ := hs'
+  have hpos : 0 < s.members.length := List.length_pos_iff.mpr hne
+  have hwl : s.members.length - 1 < perm.length := by omega
+  have hw : perm.getD (s.members.length - 1) 0 = perm[s.members.length - 1] := by
+    simp [List.getD, List.getElem?_eq_getElem hwl]
+  have hdrop : perm.drop (s.members.length - 1) = [perm[s.members.length - 1]] := by
+    rw [List.drop_eq_getElem_cons hwl]
+    have : perm.drop (s.members.length - 1 + 1) = [] := List.drop_eq_nil_of_le (by omega)
+    rw [this]
+  have hi_mem : i ∈ perm := hall i hi
+  rw [← List.take_append_drop (s.members.length - 1) perm] at hi_mem
+  rcases List.mem_append.mp hi_mem with hm | hm
+  · exact hsplit i hm _ (by rw [hdrop, hw]; simp)
+  · rw [hdrop] at hm
+    simp only [List.mem_singleton] at hm
+    rw [hw, ← hm]
+    have hnn : ((s.members.map (·.tr.scoreCurrent)).getD i F.nan).isNan = false := by
+      have hil : i < (s.members.map (·.tr.scoreCurrent)).length := by simpa using hi
+      have : (s.members.map (·.tr.scoreCurrent)).getD i F.nan = (s.members.map (·.tr.scoreCurrent))[i] := by
+        simp [List.getD, List.getElem?_eq_getElem hil]
+      rw [this]; exact hsn _ (List.getElem_mem hil)
+    exact F_ge_refl hnn
 
 end GFO.GaSelect
